@@ -238,5 +238,8 @@ void harness(void) {
 	if (res == KSI_OK && el.subList == &g_eb_list && g_eb_count > 3) REACH("many children");
 	if (res == KSI_INVALID_FORMAT) REACH("payload does not tile");
 	if (res == KSI_OUT_OF_MEMORY) REACH("allocation failure");
+	/* (audit builderY, dfcc __invalid_ptr sharing) the replaced KSI_TlvElement_parse fails at a LATER loop iteration, after it returned an element */
+	if (res == KSI_INVALID_FORMAT && g_eb_count >= 1) REACH("a later child is malformed, after one or more children were parsed");
+	if (res == KSI_OUT_OF_MEMORY && g_eb_count >= 1) REACH("allocation failure at a later child");
 }
 #endif
